@@ -987,6 +987,221 @@ def oracle_accdata(tn, c):
     return None
 
 
+
+SCALE_EXPS = [0, 0, 60, -60, 200, -200]
+
+
+def _scaled_ratio(F1, a, F2, b):
+    """|| 2^a F1 - 2^b F2 || / || 2^b F2 ||  from dense arrays, without overflow (exact power-of-two rescaling)"""
+    m = max(a, b)
+    num = np.linalg.norm(np.ldexp(F1, a - m) - np.ldexp(F2, b - m))
+    den = np.linalg.norm(F2)
+    if not den > 0:
+        return None
+    return math.ldexp(float(num / den), m - b) if m - b < 1000 else float('inf')
+
+
+def gen_acc(rng):
+    if rng.random() < 0.2:
+        return dict(kind='chain', d=rng.randint(320, 400), n=rng.randint(4, 10), c=rng.choice([1.0, 4.0, 4.0, 0.25]),
+                    var=rng.choice(['core', 'scale']), k0=rng.random(), seed=rng.randrange(10 ** 6))
+    d = rng.choice([2, 3, 3, 4])
+    ns = [rng.randint(1, 4) for _ in range(d)]
+    exps = [0, 0, 60, -60, 200, -200, 520, -520]
+    while True:
+        a, b = rng.choice(exps), rng.choice(exps)
+        if abs(a - b) <= 400:
+            break
+    return dict(kind='small', ns=ns, r1=[1] + [rng.randint(1, 3) for _ in range(d - 1)] + [1],
+                r2=[1] + [rng.randint(1, 3) for _ in range(d - 1)] + [1], a=a, b=b, seed=rng.randrange(10 ** 6),
+                where=rng.randrange(d))
+
+
+def oracle_acc(tn, c):
+    """direct check of teneva.accuracy (the routine behind info[e]) against ||Y1 - Y2|| / ||Y2||: small tensors with
+    either argument rescaled by 2^a / 2^b up to 2^+-520 (dense reference from exactly rescaled arrays), and long rank-1
+    chains (d = 320..400) whose squared norms overflow / underflow while the ratio is ordinary (closed form)"""
+    def fail(what, **kw):
+        return dict(what='C05: ' + what, input=dict(acc=c), **kw)
+    rng = np.random.default_rng(c['seed'])
+    if c['kind'] == 'chain':
+        d, n = c['d'], c['n']
+        Y2 = [rng.uniform(0.5, 1.5, size=(1, n, 1)) * c['c'] for _ in range(d)]
+        k0 = min(d - 1, int(c['k0'] * d))
+        Y1 = [G.copy() for G in Y2]
+        if c['var'] == 'core':
+            delta = rng.normal(size=(1, n, 1)) * c['c'] * 2.0 ** -rng.integers(0, 8)
+            Y1[k0] = Y2[k0] + delta
+            ref = float(np.linalg.norm(Y1[k0] - Y2[k0]) / np.linalg.norm(Y2[k0]))
+        else:
+            Y1[k0] = Y2[k0] * (1 + 2.0 ** -10)
+            ref = 2.0 ** -10
+        tol = 1e-5 * ref + 1e-7
+    else:
+        d = len(c['ns'])
+        Y1 = [rng.normal(size=(c['r1'][k], c['ns'][k], c['r1'][k + 1])) for k in range(d)]
+        Y2 = [rng.normal(size=(c['r2'][k], c['ns'][k], c['r2'][k + 1])) for k in range(d)]
+        F1, F2 = full(Y1), full(Y2)
+        ref = _scaled_ratio(F1, c['a'], F2, c['b'])
+        if ref is None or not np.isfinite(ref):
+            return None
+        # the factor 2^a is spread over the cores (a single core with entries above 2^512 cannot be squared: teneva's
+        # stabilised inner product then raises OverflowError - not a silent error, outside this family)
+        for Yx, ex in ((Y1, c['a']), (Y2, c['b'])):
+            q_, r_ = divmod(ex, d)
+            for k in range(d):
+                Yx[k] = np.ldexp(Yx[k], q_ + (r_ if k == c['where'] else 0))
+        tol = 1e-6 * ref + 1e-7 * (1 + ref)
+    S1, S2 = [G.copy() for G in Y1], [G.copy() for G in Y2]
+    try:
+        with warnings.catch_warnings():
+            warnings.simplefilter('ignore')
+            with np.errstate(all='ignore'):
+                got = float(tn.accuracy(Y1, Y2))
+    except Exception as e:  # noqa
+        return fail('accuracy raised ' + repr(e)[:200])
+    if not (cores_equal(Y1, S1) and cores_equal(Y2, S2)):
+        return fail('accuracy modified its arguments')
+    if not abs(got - ref) <= tol:
+        return fail('accuracy(Y1, Y2) is not ||Y1 - Y2|| / ||Y2||', got=got, expected=ref)
+    return None
+
+
+def gen_escale(rng):
+    d = rng.choice([2, 3, 3, 4])
+    ns = [rng.randint(2, 4) for _ in range(d)]
+    rho = [1]
+    for k in range(1, d):
+        rho.append(rng.randint(1, min(3, int(np.prod(ns[:k])), int(np.prod(ns[k:])))))
+    rho.append(1)
+    for _ in range(d):
+        for k in range(1, d):
+            rho[k] = min(rho[k], rho[k - 1] * ns[k - 1], rho[k + 1] * ns[k])
+    while True:
+        a, b = rng.choice(SCALE_EXPS), rng.choice(SCALE_EXPS)
+        if (a, b) != (0, 0):
+            break
+    return dict(ns=ns, rho=rho, r0=[1] * (d + 1), dr_min=1, dr_max=1, nswp=6, seed=rng.randrange(10 ** 6), kind='grow',
+                cache=rng.random() < 0.4, vld=False, scale='1', a=a, b=b)
+
+
+def _run_e(tn, f, Y0, c, e=1e-8):
+    es, snaps = [], []
+
+    def cb(Y, info, opts):
+        es.append(float(info['e']))
+        if not snaps:
+            snaps.append([np.array(G, copy=True) for G in Y])
+        return False
+    info = {}
+    with warnings.catch_warnings():
+        warnings.simplefilter('ignore')
+        with np.errstate(all='ignore'):
+            Y = tn.cross(f, [G.copy() for G in Y0], e=e, nswp=c['nswp'], dr_min=c['dr_min'], dr_max=c['dr_max'],
+                         info=info, cache=({} if c.get('cache') else None), cb=cb, m_cache_scale=10 ** 9)
+    return Y, info, es, snaps
+
+
+def oracle_escale(tn, c):
+    """info[e] in other magnitude regimes: the objective rescaled by 2^a and the start Y0 by 2^b, independently and
+    exactly.  Against the run at scale 1: same stop reason and sweep count, same e from the second sweep on (the ratio
+    is scale-free), and the first-sweep e equal to || 2^a Y_1 - 2^b Y0 || / || 2^b Y0 || from exactly rescaled dense
+    tensors"""
+    def fail(what, **kw):
+        return dict(what='C05: ' + what, input=dict(escale=c), **kw)
+    A, Y0 = lowrank_target(c)
+    a, b = c['a'], c['b']
+    As = np.ldexp(A, a)
+    Y0s = [G.copy() for G in Y0]
+    Y0s[0] = np.ldexp(Y0s[0], b)
+    try:
+        Y1_, i1, e1, s1 = _run_e(tn, lambda I: A[tuple(np.asarray(I).T)], Y0, c)
+        Ys_, is_, es, ss = _run_e(tn, lambda I: As[tuple(np.asarray(I).T)], Y0s, c)
+    except Exception as ex:  # noqa
+        return fail('cross raised ' + repr(ex)[:200])
+    if i1['stop'] == 'conv' or is_['stop'] == 'conv':
+        return None
+    if (is_['stop'], is_['nswp']) != (i1['stop'], i1['nswp']) or len(es) != len(e1):
+        return fail('rescaling objective / start by powers of two changes stop reason or sweep count',
+                    got=[is_['stop'], is_['nswp'], es], expected=[i1['stop'], i1['nswp'], e1])
+    for k in range(1, len(e1)):
+        if not abs(es[k] - e1[k]) <= 1e-6 * abs(e1[k]) + 1e-7:
+            return fail(f'info[e] of sweep {k + 1} changes under power-of-two rescaling', got=es[k], expected=e1[k])
+    if e1 and s1:
+        ref = _scaled_ratio(full(s1[0]), a, full(Y0), b)
+        if ref is not None and ref < 2.0 ** 480 and ref > 2.0 ** -480:
+            if not abs(es[0] - ref) <= 1e-5 * ref + 1e-7 * (1 + ref):
+                return fail('first-sweep info[e] is not || 2^a Y_1 - 2^b Y0 || / || 2^b Y0 ||', got=es[0], expected=ref)
+    err = np.linalg.norm(np.ldexp(full(Ys_), -a) - full(Y1_)) / max(np.linalg.norm(full(Y1_)), 1e-300)
+    if not err <= 1e-9:
+        return fail('the result of the rescaled run is not the rescaled result', got=float(err))
+    return None
+
+
+def gen_chain(rng):
+    return dict(d=rng.randint(320, 400), n=rng.randint(8, 10), r0=rng.choice([1, 2]), seed=rng.randrange(10 ** 6),
+                cache=False)
+
+
+def _log2_norm_tt(Y):
+    """log2 of the Frobenius norm of a TT-tensor by a Gram recursion with power-of-two rescaling (no teneva code)"""
+    M = np.ones((1, 1))
+    ex = 0
+    for G in Y:
+        G = np.asarray(G, dtype=float)
+        M = sum(G[:, j, :].T @ M @ G[:, j, :] for j in range(G.shape[1]))
+        m = float(np.abs(M).max())
+        if not m > 0:
+            return -np.inf
+        k = int(math.floor(math.log2(m)))
+        M = np.ldexp(M, -k)
+        ex += k
+    return 0.5 * (math.log2(float(M[0, 0])) + ex)
+
+
+def oracle_chain(tn, c):
+    """a long chain (d = 320..400, n = 8..10): rank-1 target with ordinary entries whose squared Frobenius norm
+    (about (1.08 n)^d) overflows.  Closed-form reference: the target is reproduced by the first sweep, so the second
+    sweep changes nothing: stop 'e' after exactly 2 sweeps with 0 <= e <= 1e-6; the first-sweep e is ||T|| / ||Y0|| (log2
+    from the factor norms; saturation value 1e299 above 2^500); the result is exact on sampled entries"""
+    def fail(what, **kw):
+        return dict(what='C05: ' + what, input=dict(chain=c), **kw)
+    rng = np.random.default_rng(c['seed'])
+    d, n = c['d'], c['n']
+    g = [rng.uniform(0.5, 1.5, size=n) for _ in range(d)]
+    r0 = [1] + [c['r0']] * (d - 1) + [1]
+    Y0 = [rng.uniform(0.5, 1.5, size=(r0[k], n, r0[k + 1])) / math.sqrt(n * r0[k]) for k in range(d)]
+
+    def f(I):
+        I = np.asarray(I)
+        out = np.ones(len(I))
+        for k in range(d):
+            out = out * g[k][I[:, k]]
+        return out
+    cc = dict(nswp=5, dr_min=0, dr_max=0, cache=False)
+    try:
+        Ys_, is_, es, _ = _run_e(tn, f, Y0, cc, e=1e-6)
+    except Exception as ex:  # noqa
+        return fail('cross raised ' + repr(ex)[:200])
+    if (is_['stop'], is_['nswp']) != ('e', 2) or len(es) != 2 or not 0 <= es[1] <= 1e-6:
+        return fail('long chain: the run must stop by e after 2 sweeps (the second sweep does not change the tensor)',
+                    got=[is_['stop'], is_['nswp'], es], expected=['e', 2])
+    lr = sum(math.log2(float(np.linalg.norm(v))) for v in g) - _log2_norm_tt(Y0)
+    if lr > 520:
+        if es[0] != 1e299:
+            return fail('long chain: first-sweep info[e] should saturate (ratio above 2^500)', got=es[0], log2_ratio=lr)
+    elif 60 < lr < 480:
+        if not (es[0] > 0 and abs(math.log2(es[0]) - lr) <= 1e-6 * lr + 1e-6):
+            return fail('long chain: first-sweep info[e] is not ||T|| / ||Y0||', got=es[0], expected_log2=lr)
+    I = np.array([[int(rng.integers(0, n)) for _ in range(d)] for _ in range(40)])
+    ref = f(I)
+    with np.errstate(all='ignore'):
+        got = np.array([tn.get(Ys_, i) for i in I])
+    if not np.all(np.abs(got - ref) <= 1e-8 * np.abs(ref)):
+        return fail('long chain: rank-1 target not reproduced on sampled entries', got=float(got[0]), expected=float(ref[0]))
+    return None
+
+
 # ------------------------------------------------------------------------------------------------ correspondence
 
 def _pair_cfg(rng, small=False):
@@ -1336,6 +1551,34 @@ def correspondence(R, ctx):
                        cases=na_, mismatches=len(abad), comparison='1e-9 relative; -1 for missing / all-zero data',
                        distribution=dict(kinds=['far', 'near', 'exact', 'zero_data', 'zero_tensor', 'none'],
                                          forms=['array', 'list', 'int32_float32']), first_mismatches=abad[:3]))
+    ebad, ne_ = [], 0
+    for j in range(1500 if thorough else 300):
+        c = gen_acc(rng)
+        ne_ += 1
+        R.add_distinct(('acc', c))
+        fl = oracle_acc(tn, c)
+        if fl:
+            ebad.append(fl)
+    for j in range(200 if thorough else 40):
+        c = gen_escale(rng)
+        ne_ += 1
+        R.add_distinct(('escale', c))
+        fl = oracle_escale(tn, c)
+        if fl:
+            ebad.append(fl)
+    for j in range(4 if thorough else 1):
+        c = gen_chain(rng)
+        ne_ += 1
+        R.add_distinct(('chain', c))
+        fl = oracle_chain(tn, c)
+        if fl:
+            ebad.append(fl)
+    R.corr.append(dict(name='info[e] / teneva.accuracy in other magnitude regimes: arguments rescaled by 2^+-60 .. 2^+-520, '
+                            'objective and start rescaled independently, long chains (d = 320..400) with overflowing '
+                            'squared norms', cases=ne_, mismatches=len(ebad),
+                       comparison='dense / closed-form reference of ||Y1 - Y2|| / ||Y2|| (1e-6 relative); stop, nswp and e '
+                                  'of later sweeps equal to the run at scale 1',
+                       distribution={}, first_mismatches=ebad[:3]))
     rbad, nr_ = [], 0
     for _ in range(300 if thorough else 70):
         cfg = dict(_pair_cfg(rng, small=rng.random() < 0.4), ret=rng.choice(RET_FORMS))
@@ -1349,7 +1592,7 @@ def correspondence(R, ctx):
                        comparison='cores float64 and bitwise equal to the float64-objective run, with and without cache; '
                                   'info r/e/e_vld bitwise; cache values Python floats',
                        distribution=dict(forms=RET_FORMS), first_mismatches=rbad[:3]))
-    pair_bad = pair_bad + rbad + abad
+    pair_bad = pair_bad + rbad + abad + ebad
     hbad, nh = [], 0
     for _ in range(300 if thorough else 60):
         h = gen_history(rng)
@@ -1500,6 +1743,25 @@ def search(R, ctx, deep, hints):
             pass
     fs += [gen_forms(rng) for _ in range(600 if deep else 100)]
     os_ += [gen_objhist(rng) for _ in range(400 if deep else 60)]
+    for key, orc, gen, cnt in (('acc', oracle_acc, gen_acc, 1500 if deep else 300),
+                               ('escale', oracle_escale, gen_escale, 300 if deep else 40),
+                               ('chain', oracle_chain, gen_chain, 4 if deep else 1)):
+        cs = []
+        for h in hints[:60]:
+            try:
+                inp = h['input'][1]
+                if isinstance(inp, dict) and isinstance(inp.get(key), dict):
+                    cs.append(inp[key])
+            except Exception:
+                pass
+        cs += [gen(rng) for _ in range(cnt)]
+        for c in cs:
+            n5 += 1
+            f = orc(tn, c)
+            if f:
+                f['kind'] = key
+                fails.append(f)
+                break
     acs = []
     for h in hints[:40]:
         try:
@@ -1546,6 +1808,11 @@ def replay(data):
         f = oracle_exact(tn, inp['lowrank'])
         print('replayed:', f)
         return 1 if f else 0
+    for key, orc in (('acc', oracle_acc), ('escale', oracle_escale), ('chain', oracle_chain)):
+        if isinstance(inp, dict) and isinstance(inp.get(key), dict):
+            f = orc(tn, inp[key])
+            print('replayed:', f)
+            return 1 if f else 0
     if isinstance(inp, dict) and isinstance(inp.get('accdata'), dict):
         f = oracle_accdata(tn, inp['accdata'])
         print('replayed:', f)
